@@ -51,6 +51,17 @@ fn parent(args: &Args) {
     run::classify_ends(&ends, &mut out, true);
     let mut extra = Map::new();
     vlib::sanlayer::run_layers(ID, args, &mut out, &mut extra);
+    // thorough: own-default histories and races on a build with the registry's debug assertions live
+    run::dbg_build_layer(
+        ID,
+        args,
+        vec![
+            ChildSpec::new("hist", args.get_u64("dbg_shards", 360)).arg("hist", per).timeout(900),
+            ChildSpec::new("race", args.get_u64("dbg_rshards", 320)).arg("scen", args.get_u64("scen", 320)).timeout(900),
+        ],
+        &mut out,
+        &mut extra,
+    );
     run::finish(
         Finish {
             id: ID,
